@@ -1,5 +1,6 @@
 import PymoodeModel.Metrics.Diversity
 import PymoodeModel.Metrics.KernelF
+import PymoodeModel.Metrics.KernelM
 import PymoodeModel.Drv.Common
 namespace Pymoode.Drv
 open Pymoode Pymoode.Proto
@@ -108,6 +109,19 @@ def compCrowd3 : P String := do
       -- hypotheses of C13.pcdKernelF_safe ⇒ ok
       if pcdSafeHyp f nObj nRemove && !okF then
         return "err functional pcd kernel leaves its arrays although MaxOnce and the removal budget hold (contradicts C13.pcdKernelF_safe)"
+    -- the functional mnn / 2nn kernel (C13h.mnnKernelF_safe) against the array interpreter: same values bit for bit;
+    -- the only out-of-bounds access the interpreter may log is the F4 site mnn.pyx:207, and `ok` must hold
+    if metric == .mnn || metric == .twonn then
+      let tw := metric == .twonn
+      let (dI, errs) := mnnKernel f nObj nRemove tw
+      let (dF, okF) := mnnKernelF f nObj nRemove tw
+      let other := errs.toList.filter fun (e : Oob) => !(e.site.startsWith "mnn.pyx:207")
+      if (dF.map fun (x : Ext Float) => x.toFloat.toBits) != (dI.map fun (x : Ext Float) => x.toFloat.toBits) then
+        return "err functional mnn kernel and array interpreter disagree on the crowding values"
+      if okF != other.isEmpty then
+        return s!"err functional mnn kernel ok={okF} but the interpreter logged {other.length} out-of-bounds accesses besides mnn.pyx:207"
+      if (2 ≤ nObj || !tw) && !okF then
+        return "err functional mnn kernel uses an unassigned neighbour slot (contradicts C13.mnnKernelF_safe)"
     return s!"ok {bOut ties} | {crowdOne label metric true false nRemove f} | {crowdOne label metric false false nRemove f} | {crowdOne label metric true true nRemove f} | {crowdOne label metric false true nRemove f}"
 
 end Pymoode.Drv
